@@ -27,13 +27,11 @@ Definition kc_sig_pub_sizes (t : Z) : option Z := assoc m_key_certificate_Signat
 (* signature.getSignatureLength: the function regenerated from its Go body (Gen/Validators.v),
    whatever shape the source gives it; what the model needs of it is proved in Proofs/SigLen.v *)
 Definition sig_length (t : Z) : option Z := g_signature_getSignatureLength t.
-(* offline_signature.SigningPublicKeySize / SignatureSize (uint16 argument; 0 = unknown) *)
-Definition off_spk_size (t : Z) : Z :=
-  match sw_lookup sw_offline_signature_SigningPublicKeySize sw_offline_signature_SigningPublicKeySize_default t with
-  | AInt v => v | _ => 0 end.
-Definition off_sig_size (t : Z) : Z :=
-  match sw_lookup sw_offline_signature_SignatureSize sw_offline_signature_SignatureSize_default t with
-  | AInt v => v | _ => 0 end.
+(* offline_signature.SigningPublicKeySize / SignatureSize (uint16 argument; 0 = unknown): the
+   functions regenerated from their Go bodies, whatever shape the source gives them (a switch, a
+   table lookup, a call of the signature package); what the model needs is proved in Proofs/SigLen.v *)
+Definition off_spk_size (t : Z) : Z := g_offline_signature_SigningPublicKeySize t.
+Definition off_sig_size (t : Z) : Z := g_offline_signature_SignatureSize t.
 
 (* supported-constructor sets *)
 Definition crypto_constructible (t : Z) : bool :=
@@ -52,9 +50,8 @@ Definition dest_signing_denied (t : Z) : bool :=
 Definition ri_signing_denied (t : Z) : bool := memZ m_router_identity_disallowedSigningKeyTypes_keys t.
 Definition ri_crypto_denied (t : Z) : bool := memZ m_router_identity_disallowedCryptoKeyTypes_keys t.
 
-Definition cert_type_valid (t : Z) : bool :=
-  match sw_lookup sw_certificate_validateCertType sw_certificate_validateCertType_default t with
-  | ANil => true | _ => false end.
+(* certificate.validateCertType: the function regenerated from its Go body *)
+Definition cert_type_valid (t : Z) : bool := g_certificate_validateCertType t.
 Definition meta_entry_type_valid (t : Z) : bool :=
   match sw_lookup sw_meta_leaseset_validateEntryType sw_meta_leaseset_validateEntryType_default t with
   | ANil => true | _ => false end.
